@@ -153,7 +153,6 @@ class Deb822ParsedTokenList(Generic[VE, ST],
         self._formatter = one_value_per_line_trailing_separator  # type: FormatterCallback
         self._changed = False
         self.__continuation_line_char = None  # type: Optional[str]
-        assert self._token_list
         last_token = self._token_list.tail
 
         if last_token is not None and isinstance(last_token, Deb822NewlineAfterValueToken):
